@@ -173,6 +173,36 @@ def make_epoch(T, name, bound, timeout):
     return Cond(f"num/{name}<-epoch", [("c0", int), ("c1", int), ("c2", int)], body, mode="E3", timeout=timeout)
 
 
+def make_epoch_frac(T, name, timeout):
+    """Float epoch seconds with a fractional part: read to the nearest microsecond (|x| < 2**21, where the double
+    nearest to x + q/10**6 is closer than 10**-9 to it, so the nearest microsecond is unambiguous)."""
+    UT = _um(T)
+    secs = [0, 1, 59, 3661, 86399, 86400, 86401, -1, -86400, 1000000, 2 ** 20 + 7]
+    micro = [1, 5, 28, 29, 56, 57, 99, 101, 250000, 499999, 500000, 500001, 999998, 999999]
+
+    def body(c0: int, c1: int):
+        ch = Chooser((c0, c1))
+        with NoTracing():
+            x, q = ch.choose(secs), ch.choose(micro)
+            xin = x + q / 1_000_000
+            ok, r = attempt(UT, xin)
+            reached()
+            if not ok:
+                return ("epoch_rejected", name, _d(xin, r))
+            ref = datetime.datetime(1970, 1, 1, tzinfo=UTC) + datetime.timedelta(seconds=x, microseconds=q)
+            if T is datetime.datetime:
+                same = type(r) is datetime.datetime and r == ref and r.utcoffset() == datetime.timedelta(0)
+            elif T is datetime.time:
+                same = type(r) is datetime.time and r == ref.timetz() and r.utcoffset() == datetime.timedelta(0)
+            else:
+                same = type(r) is datetime.date and r == ref.date()
+            if not same:
+                return ("epoch_misread:fraction", name, _d(xin, r, ref))
+        return None
+
+    return Cond(f"num/{name}<-epoch_fraction", [("c0", int), ("c1", int)], body, mode="E3", timeout=timeout)
+
+
 def make_to_number(timeout):
     UF, UI = _um(float), _um(int)
     TDS = [datetime.timedelta(0), datetime.timedelta(days=1, seconds=1), datetime.timedelta(days=-1), datetime.timedelta(microseconds=1),
@@ -291,7 +321,9 @@ def make_text(name, T, vals, textfn, tagfn, carriers, timeout):
             caches.clear_all()
             text = textfn(v) if textfn is not None else serdes.isoformat(v)
             x = {"str": text, "bytes": text.encode(), "bytearray": bytearray(text.encode()),
-                 "memoryview": memoryview(text.encode()), "memoryview_rw": memoryview(bytearray(text.encode()))}[car]
+                 "memoryview": memoryview(text.encode()), "memoryview_rw": memoryview(bytearray(text.encode())),
+                 # the text as a field inside a larger buffer
+                 "memoryview_slice": memoryview(b"12" + text.encode() + b"0")[2:-1]}[car]
             site = f"{name}:{tagfn(v)}"
             if warm == 1:
                 attempt(UT, x)
@@ -318,7 +350,10 @@ def make_text(name, T, vals, textfn, tagfn, carriers, timeout):
 
 def _equal_but_different(v):
     if isinstance(v, datetime.datetime) and v.tzinfo is not None:
-        return v.astimezone(aw(3))  # same instant, other offset: compares and hashes equal
+        try:
+            return v.astimezone(aw(3))  # same instant, other offset: compares and hashes equal
+        except OverflowError:  # at the edges of the calendar the instant has no other spelling
+            return None
     if isinstance(v, bool):
         return None
     if type(v) is int and abs(v) < 2 ** 53:
@@ -371,8 +406,10 @@ def conditions(tier, seed):
     bound = 253402300799
     out = [make_e2("exact"), make_e2("int"), make_large(to), make_td_int(to), make_td_float(to)]
     out += [make_epoch(datetime.date, "date", bound, to), make_epoch(datetime.datetime, "datetime", bound, to),
-            make_epoch(datetime.time, "time", bound, to), make_to_number(to), make_temporal_to_text(to)]
-    carriers = ["str", "bytes"] if tier == "quick" else ["str", "bytes", "bytearray", "memoryview", "memoryview_rw"]
+            make_epoch(datetime.time, "time", bound, to), make_to_number(to), make_temporal_to_text(to),
+            make_epoch_frac(datetime.date, "date", to), make_epoch_frac(datetime.datetime, "datetime", to),
+            make_epoch_frac(datetime.time, "time", to)]
+    carriers = ["str", "bytes", "memoryview_slice"] if tier == "quick" else ["str", "bytes", "bytearray", "memoryview", "memoryview_rw", "memoryview_slice"]
     for name, T, vals, textfn, tagfn in _text_cases():
         out.append(make_text(name, T, vals, textfn, tagfn, carriers, to))
     return out
